@@ -103,7 +103,9 @@ func (c *rcMixCircuit) Define(api frontend.API) error {
 }
 
 func rcMix(widths []int) func() frontend.Circuit {
-	return func() frontend.Circuit { return &rcMixCircuit{V: make([]frontend.Variable, len(widths)), widths: widths} }
+	return func() frontend.Circuit {
+		return &rcMixCircuit{V: make([]frontend.Variable, len(widths)), widths: widths}
+	}
 }
 
 type namedCircuit struct {
